@@ -75,6 +75,20 @@ def build_pool(r, tier):
         pool.append({"cls": rec, "op": "gen_format", "args": ["{id}_{ts}"]})
         pool.append({"cls": rec, "op": "parse", "args": ["42_20240131", "{id:%n}_{ts:%Y%m%d}", None]})
         pool.append({"cls": rec, "op": "parse", "args": ["data_2024", "{id:%n}_{ts:%n}", None]})
+        # making a constant group out of an instance is a call like any other: the class it came from keeps working as before
+        pool.append({"cls": rec, "op": "toconst", "args": ["42_20240131", "{id:%n}_{ts:%Y%m%d}", None]})
+        pool.append({"cls": rec, "op": "toconst", "args": ["42_20240131", "{id:%n}_{ts:%Y%m%d}", ["id"]]})
+        pool.append({"cls": rec, "op": "toconst", "args": ["data_2024", "{id:%n}_{ts:%n}", ["ts"]]})
+    for k, lst in texts.items():
+        if k not in ("envconst", "aserial", "adatetime"):
+            pool.append({"cls": B(k), "op": "toconst", "args": [lst[0][0], lst[0][1], None]})
+    # interpreter-wide settings (the decimal context, …) are shared state as well: values that are sensitive to them,
+    # next to the calls that do arithmetic on decimals
+    for text, fmt in (("123456789012345678901234567890B", "%B"), ("123456789012345678901234567890", "%b"), ("987654321098765432109876543210KB", "%K"),
+                      ("1.00000000000000000000000000001MB", "%M"), ("3YB", "%Y")):
+        pool.append({"cls": B("storage"), "op": "parse", "args": [text, fmt, False]})
+        for f2 in ("%b", "%B", "%K", "%G", "%Y"):
+            pool.append({"cls": B("storage"), "op": "parse_format", "args": [text, fmt, f2]})
     # the same text of one field in contexts where it means something else (a memo keyed by the text alone would be wrong)
     for y in ("2023", "2024", "1900", "2000"):
         for j in ("060", "061", "366", "365", "001"):
